@@ -283,7 +283,13 @@ def items_of(result):
 def via_parse_stream(chunks, boundary, charset, **limits):
     from baize.multipart_helper import parse_stream
 
-    return items_of(parse_stream(iter(chunks), boundary, charset, file_factory=RecFile, **limits))
+    # the chunk source in the shapes an Iterable may take (chosen by the input, so that a replay picks the same one):
+    # a one-shot iterator, a list, a tuple, an object that starts from the beginning every time it is iterated
+    class Again:
+        def __iter__(self):
+            return iter(list(chunks))
+    source = (iter(chunks), list(chunks), tuple(chunks), Again())[(len(chunks) + sum(map(len, chunks[:2]))) % 4]
+    return items_of(parse_stream(source, boundary, charset, file_factory=RecFile, **limits))
 
 
 def via_parse_async_stream(chunks, boundary, charset, **limits):
@@ -294,7 +300,11 @@ def via_parse_async_stream(chunks, boundary, charset, **limits):
         for c in chunks:
             yield c
 
-    return items_of(run_coro(parse_async_stream(gen(), boundary, charset, file_factory=ARecFile, **limits)))
+    class Again:
+        def __aiter__(self):
+            return gen()
+    source = (gen(), Again())[(len(chunks) + sum(map(len, chunks[:2]))) % 2]
+    return items_of(run_coro(parse_async_stream(source, boundary, charset, file_factory=ARecFile, **limits)))
 
 
 def content_type_for(boundary, charset):
